@@ -1,6 +1,6 @@
 """C20 module generator: harness/c15_gen.gen_module with the one-letter identifier pool respelled so that the
 identifiers of a module are prefixes of each other, of builtins and of keywords (completion is about
-spellings): a->al b->alp (builtin all), c->be, x->xa y->xab, f->fo (keyword for, builtin format),
+spellings): a->al b->alp (builtin all), c->isa (keyword is: `x.is|` is a position of its own), x->xa y->xab, f->fo (keyword for, builtin format),
 k->ka v->va g->go, C->Cl D->Cla (keyword class).  The respelling is done on NAME tokens only (strings and
 comments keep their text), so the program structure, the line structure and validity are unchanged."""
 import io
@@ -9,7 +9,7 @@ import tokenize
 
 from harness import c15_gen
 
-RENAME = {"a": "al", "b": "alp", "c": "be", "x": "xa", "y": "xab", "f": "fo", "k": "ka", "v": "va",
+RENAME = {"a": "al", "b": "alp", "c": "isa", "x": "xa", "y": "xab", "f": "fo", "k": "ka", "v": "va",
           "g": "go", "C": "Cl", "D": "Cla"}
 
 
